@@ -116,7 +116,7 @@ def _slot(v):
     return "u" if v is None else str(int(v))
 
 
-def _real_session(rng, buf, mode, filters, password, members, bs, tmp, tag):
+def _real_session(rng, buf, mode, filters, password, members, bs, tmp, tag, header="raw"):
     """One real SevenZipFile session (mode 'w' or 'a') on `buf` with scripted codec stages and a deterministic clock.
     Returns the tokens the model needs: (enable, coders, methods_map, stage kinds, member tokens)."""
     import py7zr
@@ -148,8 +148,10 @@ def _real_session(rng, buf, mode, filters, password, members, bs, tmp, tag):
     snap = {}
     try:
         buf.seek(0)
-        z = py7zr.SevenZipFile(buf, mode, filters=filters, password=password)
-        z.set_encoded_header_mode(False)
+        kw = {"header_encryption": True} if header == "encrypted" else {}
+        z = py7zr.SevenZipFile(buf, mode, filters=filters, password=password, **kw)
+        if header == "raw":
+            z.set_encoded_header_mode(False)
         nold = len(z.header.files_info.files) if (mode == "a" and z.header is not None and z.header.files_info is not None) else 0
         orig_wh = z._write_header
 
@@ -185,7 +187,13 @@ def _real_session(rng, buf, mode, filters, password, members, bs, tmp, tag):
     for (name, kind, data), (fn, es, mt, at) in zip(members, snap.get("files", [])):
         blocks = [data[i:i + bs] for i in range(0, len(data), bs)] if not es else []
         mtoks.append("%s/%d/%s/%s/%s" % (",".join(str(ord(ch)) for ch in fn), 1 if es else 0, blocks_tok(blocks), _slot(mt), _slot(at)))
-    return "%d %s %s %s %s" % (1 if password is not None else 0, coders, mmap, ",".join(kinds) or "-", ";".join(mtoks) if mtoks else ".")
+    main = "%d %s %s %s %s" % (1 if password is not None else 0, coders, mmap, ",".join(kinds) or "-", ";".join(mtoks) if mtoks else ".")
+    if header == "raw":
+        return main
+    # the header's own one-folder compressor is the last one made
+    hc, hk = made[-1], kinds_box[-1]
+    hcoders = "|".join("%s:%s" % (hx(cd["method"]), "N" if cd.get("properties") is None else hx(cd["properties"])) for cd in hc.coders)
+    return "%s %s %d %s" % (hcoders, ",".join(hk) or "-", bs, main)
 
 
 def _gen_members(rng, counts=(1, 1, 2, 3, 4, 6, 9)):
@@ -206,6 +214,7 @@ def run_arch(ctx, n=None, n_app=None):
     tmp = tempfile.mkdtemp(prefix="verif_ws_")
     lines, outs, cls = [], [], []
     alines, aouts, acls = [], [], []
+    elines, eouts, ecls = [], [], []
     try:
         os.mkdir(os.path.join(tmp, "d"))
 
@@ -229,6 +238,18 @@ def run_arch(ctx, n=None, n_app=None):
             outs.append(hx(buf.getvalue()))
             cls.append("%s%s/members=%d/dirs=%d" % (lab, "+AES" if password else "", len(members), sum(1 for m in members if m[1] == "dir")))
             ctx.count("ws.arch chain", lab + ("+AES" if password else ""))
+        # the default header mode (and header encryption): the raw header goes through a compressor of its own and
+        # an EncodedHeader record with the folder's CRC follows
+        for it in range(max(20, n // 2)):
+            lab, filters, password = pick(it)
+            header = "encoded" if password is None or it % 2 == 0 else "encrypted"
+            bs = rng.choice([3, 4, 7, 64, 1000])
+            members = _gen_members(rng)
+            buf = io.BytesIO()
+            toks = _real_session(rng, buf, "w", filters, password, members, bs, tmp, "e%d" % it, header=header)
+            elines.append("ws.enc " + toks)
+            eouts.append(hx(buf.getvalue()))
+            ecls.append("%s/%s%s/members=%d" % (header, lab, "+AES" if password else "", len(members)))
         # append sessions: the model parses the base image with the READER model, extends the header object as
         # Header.initialize() / _after_write / flush_archive do, and re-serialises it after the new packed data
         for it in range(n_app):
@@ -252,6 +273,7 @@ def run_arch(ctx, n=None, n_app=None):
         shutil.rmtree(tmp, ignore_errors=True)
     ctx.correspond("ws.arch", lines, outs, cls)
     ctx.correspond("ws.app", alines, aouts, acls)
+    ctx.correspond("ws.enc", elines, eouts, ecls)
     # the reader's model on exactly these inputs: Header._read vs Impl.readNextHeader on the headers the real sessions wrote
     import struct
     import hdrlib
